@@ -81,6 +81,9 @@ def explore(ctx):
             for D in ((300,) if tier == "quick" else (300, 500)):
                 for name, tmpl in firenow_cases(D):
                     lines.append(tmpl % ("f%d-%d-%s" % (rep, D, name)))
+        for what in ("fastforward", "force", "disconnect"):
+            for pos in range(1, 30, 1 if tier == "thorough" else 4):
+                lines.append(G.env_sweep("e%s%d" % (what[0:2], pos), pos, what, delays=200))
         for k in range({"quick": 40, "thorough": 1500, "search": 150}[tier]):
             lines.append(G.seq_script(rng, "s%d" % k, delays=200))
         for k in range({"quick": 40, "thorough": 1500, "search": 150}[tier]):
